@@ -139,13 +139,13 @@ def raw_alphabet() -> typing.List[NameEntry]:
         if not hit:
             raise HarnessError(f"pattern witness {n!r} matches no reserved pattern of properties.yaml")
         add(n, "pattern_witness")
-    for lang, ty, p in pats:
-        if not any(re.compile(p).match(n) for n in PATTERN_WITNESSES):
-            raise HarnessError(f"reserved pattern {lang}:{ty}:{p!r} has no witness in nsspace.PATTERN_WITNESSES")
     for n in STD_MACROS:
         add(n, "std_macro")
     for n in GENERATOR_INTERNAL:
         add(n, "generator_internal")
+    for lang, ty, p in pats:
+        if not any(re.compile(p).match(n) for n in origin):
+            raise HarnessError(f"reserved pattern {lang}:{ty}:{p!r} has no witness in the nsspace alphabet (add one to PATTERN_WITNESSES)")
     return [NameEntry(n, tuple(o)) for n, o in sorted(origin.items(), key=lambda kv: (kv[1][0], kv[0]))]
 
 
@@ -273,7 +273,7 @@ def batches(
 
 # ------------------------------------------------------------------------------------------------- assembling
 def assemble(
-    case: Case, keep: typing.Optional[typing.Iterable[int]] = None
+    case: Case, keep: typing.Optional[typing.Iterable[int]] = None, prune: bool = False
 ) -> typing.Dict[str, typing.Any]:
     """(case, kept member indices | None = all) -> {"files": {rel: text}, "roots": [...], "lookup": {root: [roots]}}"""
     members = case.get("members", [])
@@ -302,6 +302,8 @@ def assemble(
             if r not in roots:
                 roots.append(r)
     for rel, (head, tail) in case.get("skeletons", {}).items():
+        if prune and not lines[rel] and not case.get("skeletons_required"):
+            continue  # minimal replay cases: leave out skeleton files that no kept member writes into
         files[rel] = head + "".join(x + "\n" for x in lines[rel]) + tail
     # the fixed roots of a case see every other root as lookup; roots contributed by members stand alone
     lookup = {r: [o for o in roots if o != r] for r in case.get("roots", [])}
@@ -393,7 +395,9 @@ def layer_types() -> typing.List[Case]:
             ln = f"reg.{k}.1.0{suf} n{i}"
             members.append(dict(label=f"nested:{k}{suf}", origin="type_shape", lines={rel: [ln] for rel in sk}))
             i += 1
-    cases.append(dict(id="T.nested", layer="T", roots=["reg"], fixed=fixed, skeletons=sk, members=members, core_all=True))
+    cases.append(
+        dict(id="T.nested", layer="T", roots=["reg"], fixed=fixed, skeletons=sk, skeletons_required=True, members=members, core_all=True)
+    )
 
     wide = [(f"wide:{_tag(e)}", f"{e} w{i}") for i, e in enumerate(x for x in sc if x.endswith("64"))]
     wide += [
@@ -773,7 +777,6 @@ def layer8() -> typing.List[Case]:
                 fixed=fixed,
                 skeletons={},
                 members=members[b : b + step],
-                core_all=(b == 0),
             )
         )
     # services and unions across roots, plus a chain of depth 3 across roots
